@@ -611,9 +611,7 @@ class HPlateObserver(Handler):
         elif which == 'get_volumes':
             unit = unit if unit is not None else cf.volume_display_unit
         else:
-            unit = unit if unit is not None else cf.moles_display_unit
-            if 'unit' not in a and isinstance(target, pp.PlateSlicer):
-                unit = 'mol'   # PlateSlicer.get_moles documents 'mol' as its default
+            unit = unit if unit is not None else cf.moles_display_unit      # (a slice like the plate: fix 9457100)
         if not isinstance(unit, str):
             return
         try:
